@@ -214,9 +214,16 @@ func genInner(c *lib.Ctx, reps int) []*Case {
 						// nothing written, nothing coded: always verifprobe
 						cs.Kind = "probe"
 						sp := probe.Spec{Ret: status, Hdr: nil}
+						errTxt := "nil"
+						if r.Bool() {
+							// ... together with an error value (what proxy and the
+							// static file server do for a 502 / 403)
+							sp.Err = "scripted failure"
+							errTxt = "err"
+						}
 						cs.Hdr = []string{"X-Verif-Probe: " + sp.Encode()}
-						cs.Desc = fmt.Sprintf("verifprobe returns (%d, nil) without writing", status)
-						cs.Canon = fmt.Sprintf("probe/ret%d/%s/%s", status, ae, filepath.Ext(path))
+						cs.Desc = fmt.Sprintf("verifprobe returns (%d, %s) without writing", status, errTxt)
+						cs.Canon = fmt.Sprintf("probe/ret%d-%s/%s/%s", status, errTxt, ae, filepath.Ext(path))
 						cs.Pattern = "return-status"
 						out = append(out, cs)
 						continue
@@ -303,9 +310,18 @@ func genInner(c *lib.Ctx, reps int) []*Case {
 						if code == 0 && len(sp.Writes) == 0 {
 							sp.Code = 200
 						}
+						lateErr := ""
+						if size > 0 && r.Chance(1, 5) {
+							// the handler writes its whole response and then returns
+							// (0, err): an error "for the log" (fastcgi does that when
+							// the application printed on stderr)
+							sp.Err = "scripted late failure, for the log"
+							lateErr = "+late-err"
+							pat += lateErr
+						}
 						cs.Hdr = []string{"X-Verif-Probe: " + sp.Encode()}
 						cs.Expect = sp.Body()
-						cs.Desc = fmt.Sprintf("verifprobe status=%d(code %d) body=%dB, headers=%v, write pattern %s (%d writes)", status, sp.Code, size, hdr, pat, len(sp.Writes))
+						cs.Desc = fmt.Sprintf("verifprobe status=%d(code %d) body=%dB, headers=%v, write pattern %s (%d writes)%s", status, sp.Code, size, hdr, pat, len(sp.Writes), lateErr)
 					}
 					clm := "cl-unset"
 					if cl && size > 0 {
